@@ -559,6 +559,8 @@ class SyncInterpreter(BaseInterpreter[TContext, TEvent]):
         #    actually exists, then re-raises so the caller still learns of the
         #    failure. A torn configuration is strictly worse than a rolled-back
         #    one: it is unrecoverable and silently swallows every later event.
+        self._cancelled_in_transition = []
+        self._entered_in_transition = []
         try:
             self._exit_states(
                 sorted(
@@ -597,15 +599,20 @@ class SyncInterpreter(BaseInterpreter[TContext, TEvent]):
                 transition.source.id,
                 exc_info=True,
             )
+            # 🧹 Cancel what half-entered states armed on the way in — see the
+            #    matching comment in `BaseInterpreter._execute_transition`.
+            entered = list(self._entered_in_transition)
             self._active_state_nodes.clear()
             self._active_state_nodes.update(snapshot_before_transition)
+            for node in entered:
+                self._cancel_state_tasks(node)
 
-            # ⏱️ Re-arm cancelled timers/services — see the matching comment
-            #    in `BaseInterpreter._execute_transition`. Without this the
-            #    restored configuration is inert.
-            for node in snapshot_before_transition:
-                if node in states_to_exit:
+            # ⏱️ Re-arm exactly the states whose timers/services were
+            #    cancelled. Without this the restored configuration is inert.
+            for node in self._cancelled_in_transition:
+                if node in snapshot_before_transition:
                     self._schedule_state_tasks(node)
+            self._cancelled_in_transition = []
             raise
 
         # Notify plugins and subscribers of the completed transition.
@@ -702,6 +709,7 @@ class SyncInterpreter(BaseInterpreter[TContext, TEvent]):
             logger.info("➡️ Entering state: '%s'", state.id)
             self._active_state_nodes.add(state)
             self._note_activation(state)
+            self._entered_in_transition.append(state)
             # 📨 Pass the REAL triggering event through. Synthesising an
             #    `entry.<id>` event here discarded the payload, so an entry
             #    action reading `event.payload` — the normal way to seed state
@@ -805,6 +813,7 @@ class SyncInterpreter(BaseInterpreter[TContext, TEvent]):
         # 🧹 Cancel tasks BEFORE any other processing to prevent race conditions.
         for state in states_to_exit:
             self._cancel_state_tasks(state)
+            self._cancelled_in_transition.append(state)
 
         # 🏃‍♂️ Then proceed with normal exit processing.
         for state in states_to_exit:
